@@ -21,15 +21,31 @@ LOGIC_ID = 2000
 VEHICLE_BASE = 3000
 
 
+# value policies for fields the battle does not set itself (C15: extreme but legal values); None = zeros
+INT_POLICY = None
+FLOAT_BITS = None
+
+
+def int_extreme(which):
+    def f(t, hint):
+        bits = 8 * t['size']
+        if which == 'ones':
+            return -1 if t['signed'] else (1 << bits) - 1
+        if which == 'top':
+            return -(1 << (bits - 1)) if t['signed'] else 1 << (bits - 1)
+        return (1 << (bits - 1)) - 1
+    return f
+
+
 def benign(t, hint='', depth=0, consts=None):
     """a harmless value of type t (canonical form); `hint` is the field / property name"""
     k = t['k']
     if k == 'int':
-        return 0
+        return INT_POLICY(t, hint) if INT_POLICY else 0
     if k == 'f32':
-        return {'f32': 0}
+        return {'f32': FLOAT_BITS[0] if FLOAT_BITS else 0}
     if k == 'f64':
-        return {'f64': 0}
+        return {'f64': FLOAT_BITS[1] if FLOAT_BITS else 0}
     if k == 'vec':
         return {'vec': [0] * t['n']}
     if k in ('blob', 'python'):
@@ -228,6 +244,14 @@ def build(rng, game, version, views, rich=False, ids=None):
     exp['map'] = arena[len('spaces/'):] if arena.startswith('spaces/') else arena
     b.trace.append(['map', nb.hex()])
     if game == 'wot':
+        # the wot controller records the arguments of Avatar.showTracer in its summary
+        m = b.method_def('Avatar', 'showTracer')
+        if m is not None and rich:
+            for _ in range(rng.randint(1, 3)):
+                args = {}
+                for j, (an, t) in enumerate(m['args']):
+                    args[an if an is not None else j] = benign(history.peel(t), an or '')
+                b.call(AVATAR_ID, 'showTracer', args)
         return b, exp
     consts = b.consts
     # --- entities the summary reads
@@ -337,6 +361,8 @@ def events(b, rng, exp, ver, players, vehicles, consts):
                             entry[1] = attacker
                         if entry[0] in ('damage', 'instantDamage', 'periodicDamage'):
                             bits = struct.unpack('<I', struct.pack('<f', float(rng.randint(1, 900))))[0]
+                            if FLOAT_BITS and rng.random() < 0.5:
+                                bits = FLOAT_BITS[0]            # non-finite amounts are legal FLOAT32 values
                             entry[1] = {'f32': bits} if not isinstance(entry[1], int) else rng.randint(1, 900)
                     items.append((attacker, it))
                 if b.call(vid, 'receiveDamagesOnShip', [[it for _, it in items]]):
@@ -351,7 +377,7 @@ def events(b, rng, exp, ver, players, vehicles, consts):
                             amount = num(fields.get('instantDamage', 0)) + num(fields.get('periodicDamage', 0))
                         d = shots.setdefault(vid, {})
                         d[attacker] = d.get(attacker, 0) + amount
-                        b.trace.append(['shot', vid, attacker, int(amount)])
+                        b.trace.append(['shot', vid, attacker, int(amount) if amount == amount and abs(amount) != float('inf') else 0])
         elif r < 0.7:
             m = b.method_def('Avatar', 'receive_planeDeath')
             if m is not None:
